@@ -102,6 +102,15 @@ for _m in ("mh", "mhcustom", "_dummy1d"):
     VARIANTS.append(("mcquad", _m, "pure", "large"))
     VARIANTS.append(("mcquad", _m, "edmod", "large"))
 VARIANTS.append(("quad", "leggauss", "pure", "large"))
+#   raises  : calls that FAIL inside the library (davidson cannot expand its search space because two of the three
+#             requested eigenpairs are exact from the start: the unchanged library raises LinAlgError; solve with a
+#             singular matrix and a direct method).  A failed call that the caller catches and drops must leave
+#             nothing behind either: events that raise are part of the history instead of being skipped
+#   debug   : every event inside xitorch.enable_debug() (the debug-mode pre-checks and wrappers run)
+for _fn, _m in list(VARY_FIRST.items()) + [("solve_ivp", "rk45"), ("solve_ivp", "rk23"), ("rootfinder", "newton")]:
+    VARIANTS.append((_fn, _m, {"solve": "mfree", "symeig": "mfree", "svd": "mfree"}.get(_fn, "edmod"), "debug"))
+VARIANTS.append(("symeig", "davidson", "mfree", "raises"))
+VARIANTS.append(("symeig", "davidson", "dense", "raises"))
 
 
 def cases(tier, seed):
@@ -187,12 +196,27 @@ class World:
             sc = self.sc
             sc.ts = sc.ts.detach().clone().requires_grad_()
             sc.leaves = list(sc.leaves) + [sc.ts]
+        elif var == "raises":
+            sc = self.sc
+            n = 8
+            gb = gen(123)
+            blk = torch.randn(n - 2, n - 2, dtype=sc.a.dtype, generator=gb)
+            mat = torch.zeros(n, n, dtype=sc.a.dtype)
+            mat[0, 0], mat[1, 1] = 1.0, 2.0
+            mat[2:, 2:] = (blk + blk.T) + 10.0 * torch.eye(n - 2, dtype=sc.a.dtype)
+            sc.a = mat.requires_grad_()
+            sc.leaves = [sc.a]
+            sc.neig = 3
+            sc.C = torch.eye(n, dtype=sc.a.dtype)
+            sc.w = torch.tensor([0.7, -0.4, 0.2], dtype=sc.a.dtype)
+            self.fwd.update({"v_init": "eye", "min_eps": 1e-9})
         elif var == "large":
             if fn == "mcquad":
                 self.fwd["nsamples"] = 600
             else:
                 self.fwd["n"] = 300
         self.vary = var == "vary"
+        self.debug = var == "debug"
         # (harness tensors are created here, before the baseline census)
         self.base = [l.detach().clone() for l in self.sc.leaves] if self.vary else None
         if fn == "mcquad":
@@ -201,6 +225,13 @@ class World:
         self.R = [torch.randn(l.shape, dtype=l.dtype, generator=g) for l in self.sc.leaves]
 
     def run(self, ev):
+        if self.debug:
+            import xitorch
+            with xitorch.enable_debug():
+                return self._run(ev)
+        return self._run(ev)
+
+    def _run(self, ev):
         """executes one event; every library result dies when this frame returns"""
         sc = self.sc
         if self.vary:
@@ -268,7 +299,8 @@ def run_case(cfg):
             skipped[ev] = sig
     del w
     _collect_all()
-    alphabet = [e for e in EVENTS if e not in skipped]
+    keep_raising = cfg.get("variant") == "raises"
+    alphabet = list(EVENTS) if keep_raising else [e for e in EVENTS if e not in skipped]
     firsts = alphabet if cfg["first"] == "*" else [e for e in alphabet if e == cfg["first"]]
     hists = []
     if alphabet and firsts:
@@ -288,7 +320,7 @@ def run_case(cfg):
                 sig = _safe_run(world, ev)
                 n_exec += 1
                 transitions += 1
-                if sig is not None:
+                if sig is not None and not keep_raising:
                     broken = (k, ev, sig)
                     break
                 cur = census()
